@@ -1,4 +1,4 @@
-import Unsized.MachineAtomic
+import Unsized.MachineAtomicAll
 import Unsized.Props.C01
 /-!
 # C06 — A failed mutation never corrupts, and single-container operations are atomic
@@ -15,9 +15,9 @@ FULL STATEMENT (`err_atomic`): for every op that resizes one container and every
 `applyOp … = (m', .error _)` implies `m'.bytes = m.bytes` (hence `len`), `m'.orig = m.orig`.
 It is FALSE of the current code for `UnsizedList::insert` / `UnsizedMap::insert` with a fallible element
 initialiser (`ulist_init_fail_witness`, `set_data_inner_init_fail_witness` below — registered known
-findings). Proved for all `Supported` non-composite ops (every op on `fixed`/`list`/`rem`/`struct`/`enum`
-nodes and `replace`/`reset` on every node kind, at any nesting depth). Missing: `set`/`map` single
-inserts/removes and `ulist`/`umap` insert/remove with infallible initialisers (byte algebra not done yet).
+findings). Proved for all `SupportedA2` non-composite ops (every op on `fixed`/`list`/`set`/`map`/`rem`/`struct`/`enum`
+nodes and `replace`/`reset` on every node kind, at any nesting depth). Missing: `ulist`/`umap`
+insert/remove with infallible initialisers (in progress, `MachineNodeUlist.lean`).
 -/
 
 /-- **Atomicity**: a covered single-container op that returns an error — index/range out of bounds,
@@ -26,69 +26,34 @@ prefix overflow, growth refused by the schedule or beyond `orig + 10240` — lea
 theorem err_atomic_partial (s : Shape) (v : Val) (hok : s.ok = true) (hwf : WF s v = true) (m : Mem)
     (hm : m.bytes = encode s v) (hsmall : m.orig + maxIncrease < Shape.u32Lim)
     (hlen : m.bytes.length ≤ m.orig + maxIncrease) (p : List Step) (op : Op)
-    (hsup : ∀ t u, resolve s v p = .ok (t, u) → Supported t op = true) (hnc : composite op = false)
+    (hsup : ∀ t u, resolve s v p = .ok (t, u) → SupportedA2 t op = true) (hnc : composite op = false)
     (m' : Mem) (e : Err) (h : applyOp s p op m = (m', .error e)) :
     m'.bytes = m.bytes ∧ m'.bytes.length = m.bytes.length ∧ m'.orig = m.orig ∧ m'.refuse = m.refuse := by
   simp only [WF, Bool.and_eq_true] at hwf
-  obtain ⟨h1, h2, h3⟩ := applyOp_atomic s v ⟨⟨true, false, hok⟩, hwf.1, hwf.2⟩ m hm ⟨hsmall, hlen⟩ p op hsup hnc m' e h
+  obtain ⟨h1, h2, h3⟩ := applyOp_atomic2 s v ⟨⟨true, false, hok⟩, hwf.1, hwf.2⟩ m hm ⟨hsmall, hlen⟩ p op hsup hnc m' e h
   exact ⟨h1, by rw [h1], h2, h3⟩
 
 /-
 FULL STATEMENT (`err_canonical`): for EVERY op (incl. composite ones), on `err` the state still
-satisfies "canonical encoding of some `WF` value with matching length". Proved for the covered ops;
-for the composite `str_set` the value is the old string or the empty string.
+satisfies "canonical encoding of some `WF` value with matching length". Proved for the covered node
+kinds INCLUDING the composite ops `Set::insert_all`, `Map::insert_all` (value = the container with the
+first i new entries applied, `MachineAtomicSeq.lean`) and `UnsizedString::set` (old or empty string).
 -/
 
-/-- **No corruption**: after an error of a covered op the buffer is still the canonical serialization
-(with exact length) of a well-formed value of the type. -/
+/-- **No corruption**: after an error of a covered op — single-container or composite, under EVERY
+refusal schedule — the buffer is still the canonical serialization (with exact length) of a
+well-formed value of the type, so by `Unsized.C01.history_refines_partial` later ops behave correctly. -/
 theorem err_canonical_partial (s : Shape) (v : Val) (hok : s.ok = true) (hwf : WF s v = true) (m : Mem)
     (hm : m.bytes = encode s v) (hsmall : m.orig + maxIncrease < Shape.u32Lim)
     (hlen : m.bytes.length ≤ m.orig + maxIncrease) (p : List Step) (op : Op)
-    (hsup : ∀ t u, resolve s v p = .ok (t, u) → Supported t op = true)
+    (hsup : ∀ t u, resolve s v p = .ok (t, u) → SupportedA2 t op = true)
     (m' : Mem) (e : Err) (h : applyOp s p op m = (m', .error e)) :
-    ∃ v', WF s v' = true ∧ m'.bytes = encode s v' ∧ m'.bytes.length = size s v' := by
+    ∃ v', WF s v' = true ∧ m'.bytes = encode s v' ∧ m'.bytes.length = size s v'
+      ∧ m'.orig = m.orig ∧ m'.refuse = m.refuse := by
   simp only [WF, Bool.and_eq_true] at hwf
-  have g : Good s v := ⟨⟨true, false, hok⟩, hwf.1, hwf.2⟩
-  by_cases hnc : composite op = false
-  · obtain ⟨h1, _, _⟩ := applyOp_atomic s v g m hm ⟨hsmall, hlen⟩ p op hsup hnc m' e h
-    exact ⟨v, by simp [WF, hwf], by rw [h1, hm], by rw [h1, hm, encode_size_all s v hwf.1]⟩
-  · -- composite: only `str_set` is covered
-    have hloc := locate_encode p s v g [] [] 0 rfl
-    simp only [List.nil_append, List.append_nil, Nat.zero_add] at hloc
-    unfold applyOp at h
-    rw [hm, hloc] at h
-    cases hr : resolve s v p with
-    | error e' =>
-      rw [hr] at h; simp only [] at h; cases h
-      exact ⟨v, by simp [WF, hwf], hm, by rw [hm, encode_size_all s v hwf.1]⟩
-    | ok tu =>
-      obtain ⟨t, u⟩ := tu
-      rw [hr] at h
-      simp only [] at h
-      have F : Focus s v p t u m := ⟨g, hr, hm⟩
-      have hs := hsup t u hr
-      have same : ∀ {m'' : Mem} {e' : Err}, (m, (Except.error e' : Except Err Ret)) = (m'', .error e) →
-          ∃ v', WF s v' = true ∧ m''.bytes = encode s v' ∧ m''.bytes.length = size s v' := by
-        intro m'' e' hh; cases hh
-        exact ⟨v, by simp [WF, hwf], hm, by rw [hm, encode_size_all s v hwf.1]⟩
-      cases op <;> simp [composite] at hnc
-      · -- sinsertAll: not a covered node kind
-        simp only [Supported, genericOp, Bool.or_false] at hs
-        have hv := F.sub.valid
-        cases t <;> simp [coveredShape] at hs <;> simp only [applyAt] at h <;> exact same h
-      · simp only [Supported, genericOp, Bool.or_false] at hs
-        have hv := F.sub.valid
-        cases t <;> simp [coveredShape] at hs <;> simp only [applyAt] at h <;> exact same h
-      · simp only [Supported, genericOp, Bool.or_false] at hs
-        have hv := F.sub.valid
-        cases t <;> simp [coveredShape] at hs <;> simp only [applyAt] at h <;> try exact same h
-        -- str
-        cases u <;> simp only [valid, Bool.false_eq_true] at hv
-        split at h
-        · obtain ⟨F', _, _, _⟩ := strSet_err_canonical F ⟨hsmall, hlen⟩ _ m' e (unitRes_err_inv h)
-          exact ⟨_, by simp [WF, F'.good.valid, F'.good.fits], F'.bytes,
-            by rw [F'.bytes, encode_size_all _ _ F'.good.valid]⟩
-        · exact same h
+  obtain ⟨v', g', hb, ho, hr⟩ := applyOp_err_canonical s v ⟨⟨true, false, hok⟩, hwf.1, hwf.2⟩ m hm ⟨hsmall, hlen⟩
+    p op hsup m' e h
+  exact ⟨v', by simp [WF, g'.valid, g'.fits], hb, by rw [hb, encode_size_all s v' g'.valid], ho, hr⟩
 
 /-! ## The known findings, as kernel-checked witnesses on the model of the code that exists -/
 
@@ -154,6 +119,7 @@ example : Unsized.C01.exS.ok = true ∧ WF Unsized.C01.exS Unsized.C01.exV = tru
         (fresh Unsized.C01.exS Unsized.C01.exV [1])) .realloc = true := by
   decide +kernel
 
-example : Supported (.list (.pod 1) 1) (.push [9]) = true ∧ composite (.push [9]) = false := by decide
+example : SupportedA2 (.list (.pod 1) 1) (.push [9]) = true ∧ composite (.push [9]) = false := by decide
+example : SupportedA2 (.map 1 (.pod 1) 1) (.minsertAll []) = true := by decide
 
 end Unsized.C06
